@@ -215,8 +215,8 @@ func ruleGlobalSettingPhase(c *Ctx) {
 	lt := guardRel("local max < requested max", "<", resultOfCall(cmp), isConstInt(0))
 	c.need(rule, h, "call WriteTSO", instrCallMatcher(writeTSO), []Ev{skipped, lt}, anyOf,
 		"the requested MaxTS is written (and reported as accepted) only when it is strictly above every local timestamp, or the caller already validated it (skipCheck)")
-	failed := &failEv{okEv: newOkEv(h, "WriteTSO failed", callMatcher(writeTSO))}
-	c.need(rule, h, "successful return", func(x ssa.Instruction) bool { r, ok := x.(*ssa.Return); return ok && retIsNilErr(r) }, []Ev{failed}, func(hh []bool) bool { return !hh[0] },
+	failed := newSettledEv(h, "WriteTSO", callMatcher(writeTSO))
+	c.need(rule, h, "successful return", func(x ssa.Instruction) bool { r, ok := x.(*ssa.Return); return ok && retIsNilErr(r) }, []Ev{failed}, all,
 		"a failed WriteTSO is never reported as synced")
 	getSkip := F(P.Method("github.com/pingcap/kvproto/pkg/pdpb", "SyncMaxTSRequest", "GetSkipCheck"))
 	found, _ := guardControlsReturn(h, func(cond ssa.Value, pos bool) bool {
